@@ -10,6 +10,7 @@ from bt.core import Security, Strategy, StrategyBase
 from .. import common, instrument as ins
 
 ID = "C05"
+KNOWN_CEILING = {'k1_guard': 0.002, 'k2_subunit_negative_noop': 0.06, 'k3_rounded_to_closeout': 0.03, 'k9_fee_charged_at_zero_quantity': 0.01}   # share of all evaluations a known finding may reach before it counts as a violation again
 LEVEL = "exploration"
 RULE = ("W4: one security under one strategy; sweep of price x multiplier x prior position (long/short/flat) x amount (random, sub-unit, exact "
         "multiples, exact close-out, zero) x spread x commission family x position mode, plus missing/zero prices. Oracle on (delta position, "
